@@ -307,6 +307,28 @@ func CheckC19(e *Env) int {
 		add(mut, "accept", "reject", fmt.Sprintf("conflict-in-unreferenced-set/injectfile=%v/grouped=%v", v&1 != 0, v&2 != 0))
 		add(ctl, "accept", "accept", "control-unreferenced-set-variants")
 	}
+	// declarations that merely MENTION wire.ProviderSet are not provider-set variables
+	for k, raw := range []string{
+		"type PS = wire.ProviderSet\n\nvar GoodSet PS = wire.NewSet(NewA)\n",
+		"type PSDefined wire.ProviderSet\n",
+		"func MakeSet() wire.ProviderSet { return wire.NewSet(NewA) }\n",
+		"const NotASet = 3\n\ntype Holder struct{ S wire.ProviderSet }\n",
+	} {
+		b := NewPB(nid(), "app")
+		a := b.Carrier(0, "A")
+		fa := b.Func(0, "NewA", a, false, false)
+		fa.Stub = true
+		b.Inj("Init", a, false, false, nil, ItemRef(fa.ID))
+		b.P.InjRaw = raw
+		add(b.P, "accept", "accept", fmt.Sprintf("providerset-type-mentioned-not-a-set-variable/%d", k))
+	}
+	// an injector parameter spelled like a top-level set / provider (gen refuses the argument)
+	for _, rc := range crossInjectorCases() {
+		if rc.Class == "not-provider" {
+			rc.P.ID = nid()
+			add(rc.P, "reject", "reject", "parameter-named-like-a-package-level-object")
+		}
+	}
 	for _, rc := range c11Negatives() {
 		rc.P.ID = nid()
 		add(rc.P, "reject", "reject", "bad-binding")
@@ -422,6 +444,18 @@ func CheckC19(e *Env) int {
 			if !t.Inline && t.AliasOf == 0 {
 				p.AddSet(&Set{Pkg: t.Pkg, Name: "Alias" + t.Name, AliasOf: t.ID + 1})
 				p.AddSet(&Set{Pkg: t.Pkg, Name: "AliasOfAlias" + t.Name, AliasOf: len(p.Sets)})
+				break
+			}
+		}
+	}
+	// ... and aliases declared in ANOTHER package than the set they name
+	for i, p := range showProgs {
+		if i%3 != 1 {
+			continue
+		}
+		for _, t := range append([]*Set(nil), p.Sets...) {
+			if !t.Inline && t.AliasOf == 0 && t.Pkg != 0 {
+				p.AddSet(&Set{Pkg: 0, Name: "LocalAliasOf" + t.Name, AliasOf: t.ID + 1})
 				break
 			}
 		}
